@@ -127,6 +127,19 @@ def gen_scenario(rng, idx, n_ops=None, with_save=False, opts=True, cross_prob=0.
                 inp.append([rng.random() < 0.85, rng.choice(domain_of(c["type"]))])
             xiff = [rng.random() < 0.85 for _ in sh["crosses"]]
             ops.append({"op": "sample", "inst": i, "inp": inp, "xiff": xiff})
+    # a sweep that hits every cross bin exactly once (every combination of values of the coverpoints' domains, conditions
+    # on): bins then stand at one hit each, below any at_least of 2 or more
+    import itertools
+    for i, (tn, sh) in enumerate(insts):
+        if sh["crosses"] and rng.random() < 0.45:
+            doms = [domain_of(c["type"]) for c in sh["cps"]]
+            n = 1
+            for d_ in doms:
+                n *= len(d_)
+            if n <= 400:
+                for combo in itertools.product(*doms):
+                    ops.append({"op": "sample", "inst": i, "inp": [[True, v] for v in combo], "xiff": [True for _ in sh["crosses"]]})
+                ops.append({"op": "state"})
     ops.append({"op": "state"})
     if with_save:
         ops.append({"op": "save"})
